@@ -16,6 +16,10 @@
 
 #define SEXP_BANNER(x) ("**************** GC "x"\n")
 
+#ifdef CHIBI_VERIF
+#include "opt/verif-gc.c"
+#endif
+
 #define SEXP_MINIMUM_OBJECT_SIZE (sexp_heap_align(1))
 
 #if SEXP_USE_GLOBAL_HEAP
@@ -500,15 +504,26 @@ sexp sexp_sweep (sexp ctx, size_t *sum_freed_ptr) {
       if (!sexp_markedp(p)) {
         /* free p */
         sum_freed += size;
+#ifdef CHIBI_VERIF
+        VERIF_UNPOISON(p, VERIF_FLHDR);
+        VERIF_POISON_FREE(p, size);
+#endif
         if (((((char*)q) + q->size) == (char*)p) && (q != h->free_list)) {
           /* merge q with p */
           if (r && r->size && ((((char*)p)+size) == (char*)r)) {
             /* ... and with r */
             q->next = r->next;
             freed = q->size + size + r->size;
+#ifdef CHIBI_VERIF
+            VERIF_POISON(p, VERIF_FLHDR);
+            VERIF_POISON(r, VERIF_FLHDR);
+#endif
             p = (sexp) (((char*)p) + size + r->size);
           } else {
             freed = q->size + size;
+#ifdef CHIBI_VERIF
+            VERIF_POISON(p, VERIF_FLHDR);
+#endif
             p = (sexp) (((char*)p)+size);
           }
           q->size = freed;
@@ -520,6 +535,9 @@ sexp sexp_sweep (sexp ctx, size_t *sum_freed_ptr) {
             s->next = r->next;
             q->next = s;
             freed = size + r->size;
+#ifdef CHIBI_VERIF
+            VERIF_POISON(r, VERIF_FLHDR);
+#endif
           } else {
             s->size = size;
             s->next = r;
@@ -566,6 +584,9 @@ sexp sexp_gc (sexp ctx, size_t *sum_freed) {
   finalized = sexp_finalize(ctx);
   res = sexp_sweep(ctx, sum_freed);
   ++sexp_context_gc_count(ctx);
+#ifdef CHIBI_VERIF
+  verif_heap_check(ctx);
+#endif
 #if SEXP_USE_TIME_GC
   getrusage(RUSAGE_SELF, &end);
   gc_usecs = (end.ru_utime.tv_sec - start.ru_utime.tv_sec) * 1000000 +
@@ -600,6 +621,9 @@ sexp_heap sexp_make_heap (size_t size, size_t max_size, size_t chunk_size) {
   free->next = next;
   next->size = size - sexp_heap_align(sexp_free_chunk_size);
   next->next = NULL;
+#ifdef CHIBI_VERIF
+  VERIF_POISON_FREE(next, next->size);
+#endif
 #if SEXP_USE_DEBUG_GC
   fprintf(stderr, SEXP_BANNER("heap: %p-%p data: %p-%p"),
           h, ((char*)h)+sexp_heap_pad_size(size), h->data, h->data + size);
@@ -652,6 +676,10 @@ void* sexp_try_alloc (sexp ctx, size_t size) {
 #endif
     for (ls1=h->free_list, ls2=ls1->next; ls2; ls1=ls2, ls2=ls2->next) {
       if (ls2->size >= size) {
+#ifdef CHIBI_VERIF
+        /* with red-zone padding never split off a crumb too small to ever be allocated */
+        if (SEXP_GC_PAD && ls2->size != size && ls2->size < size + sexp_heap_align(1) + SEXP_GC_PAD) continue;
+#endif
 #if SEXP_USE_DEBUG_GC > 1
         ls3 = (sexp_free_list) sexp_heap_end(h);
         if (ls2 >= ls3)
@@ -661,13 +689,22 @@ void* sexp_try_alloc (sexp ctx, size_t size) {
 #endif
         if (ls2->size >= (size + SEXP_MINIMUM_OBJECT_SIZE)) {
           ls3 = (sexp_free_list) (((char*)ls2)+size); /* the tail after ls2 */
+#ifdef CHIBI_VERIF
+          VERIF_UNPOISON(ls3, VERIF_FLHDR);
+#endif
           ls3->size = ls2->size - size;
           ls3->next = ls2->next;
           ls1->next = ls3;
         } else {                  /* take the whole chunk */
           ls1->next = ls2->next;
         }
+#ifdef CHIBI_VERIF
+        VERIF_UNPOISON(ls2, size);
+#endif
         memset((void*)ls2, 0, size);
+#ifdef CHIBI_VERIF
+        if (verif_req && verif_req < size) VERIF_POISON(((char*)ls2) + verif_req, size - verif_req);
+#endif
         return ls2;
       }
     }
@@ -708,6 +745,10 @@ void* sexp_alloc (sexp ctx, size_t size) {
   sexp_uint_t alloc_time;
   struct timeval start, end;
   gettimeofday(&start, NULL);
+#endif
+#ifdef CHIBI_VERIF
+  verif_req = size;
+  if (verif_should_gc()) sexp_gc(ctx, NULL);
 #endif
   size = sexp_heap_align(size) + SEXP_GC_PAD;
 #if SEXP_USE_TRACK_ALLOC_SIZES
